@@ -52,13 +52,14 @@ func main() {
 		bounds   = flag.String("bounds", "", "k=v,k=v harness bounds")
 		out      = flag.String("out", "", "result JSON file")
 		dump     = flag.String("dump-smt", "", "prefix for SMT-LIB2 transcripts")
-		maxFail  = flag.Int("max-failures", 20, "failures kept in the result")
+		maxFail  = flag.Int("max-failures", 4, "failures kept per obligation in the result")
 		samples  = flag.Int("samples", 5, "sample paths kept in the result")
 		trail    = flag.String("trail", "", "replay one decision trail (comma-separated)")
 		trace    = flag.Bool("trace", false, "trace instructions")
 		tags     = flag.String("tags", "", "build tags")
 		first    = flag.Bool("stop-at-first", false, "stop at the first failure")
 		verbose  = flag.Duration("progress", 0, "progress interval")
+		minSampleEv = flag.Int("sample-min-events", 3, "minimum number of events of a sampled path")
 		inits    = flag.String("init", "", "extra packages whose init functions run")
 	)
 	flag.Parse()
@@ -111,7 +112,9 @@ func main() {
 		p.initPkgs = append(p.initPkgs, strings.Split(*inits, ",")...)
 	}
 	loadSecs := time.Since(t0).Seconds()
+	sampleBudget = int64(*samples) * 40
 	e := &explorer{cfg: cfg, prog: p, res: newResults()}
+	e.res.minSampleEvents = *minSampleEv
 	e.run()
 	wallS := time.Since(t0).Seconds()
 	o := &output{Entry: cfg.entry, Package: *pkg, Results: e.res, Bounds: cfg.bounds, LoadSecs: loadSecs, WallSecs: wallS,
@@ -145,6 +148,8 @@ func main() {
 		os.Exit(1)
 	}
 }
+
+var sampleBudget int64
 
 // runPath executes the harness entry once along trail prefix t.
 func (w *worker) runPath(t []int) *exec {
@@ -204,6 +209,21 @@ func (w *worker) runPath(t []int) *exec {
 	}
 	if ex.unknownPC {
 		ex.notes["unknown-branch"] = "a branch feasibility query returned unknown; both sides were kept"
+	}
+	if ex.abort == nil && len(ex.failures) == 0 && len(ex.events) > 0 && atomic.AddInt64(&sampleBudget, -1) >= 0 {
+		// keep a concrete instance of this path for the evidence / translator validation
+		ex.sync()
+		if w.sol.check() == "sat" {
+			ex.sampleModel = ex.model()
+			evs := make([]string, len(ex.events))
+			for i, e := range ex.events {
+				evs[i] = e
+				for _, t := range ex.evTerms[i] {
+					evs[i] = strings.Replace(evs[i], "$", w.sol.getValue(t.e), 1)
+				}
+			}
+			ex.sampleEvents = evs
+		}
 	}
 	if ex.pushedPath {
 		w.sol.pop()
